@@ -1116,7 +1116,9 @@ class Fold:
         if s.get("cond") is not None and k != "do":
             cond = self.ev(s["cond"], benv)
         self.loops = getattr(self, "loops", [])
-        self.loops.append({"lid": lid, "node": s, "cond": cond, "init": {key: old for key, (old, a) in start.items()}, "syms": {key: a for key, (old, a) in start.items()}})
+        self.loops.append({"lid": lid, "node": s, "cond": cond, "init": {key: old for key, (old, a) in start.items()}, "syms": {key: a for key, (old, a) in start.items()},
+                           "range": getattr(self, "range_values", {}).get(s["var"]["decl"]) if k == "rangefor" and s.get("var") else None,
+                           "var": env.get(s["var"]["decl"]) if k == "rangefor" and s.get("var") else None})
         mark = len(self.guards)
         self.guards.append((("loop", lid, cond), True, s))
         self.begin_loop()
